@@ -49,6 +49,25 @@ class FakeTransport:
         pass
 
 
+class ConnCapture:
+    """what protocol.transport is for a connected gateway: records what is written"""
+
+    def __init__(self, log):
+        self.log = log
+        self.closed = False
+
+    def write(self, data):
+        if self.closed:
+            raise OSError(9, "Bad file descriptor")
+        self.log.append(bytes(data).decode("utf-8", "surrogateescape"))
+
+    def close(self):
+        self.closed = True
+
+    def is_closing(self):
+        return self.closed
+
+
 def exc_kind(exc):
     import struct
     import voluptuous as vol
@@ -293,7 +312,9 @@ class RealGW:
         elif self.kind == "tcp":
             from mysensors.gateway_tcp import AsyncTCPGateway
             self.gw = AsyncTCPGateway("127.0.0.1", **kwargs)
-            self.gw.tasks.transport = self.transport
+            # the gateway keeps its real AsyncTransport: Transport.send / disconnect decide what reaches the
+            # connection object, which records the bytes written (as the text they encode)
+            self.gw.tasks.transport.protocol.transport = ConnCapture(self.transport.log)
         else:
             self.gw = BaseAsyncGateway(self.transport, **kwargs)
         del mysensors
@@ -624,6 +645,27 @@ def gen_history(rng, version, n, persist=False, ota=True, sleep=True, malformed=
     return hist
 
 
+def text_echo_burst(rng, version, hist):
+    """A node reports free-text values holding characters outside ASCII (and other exotic text) and then asks for
+    them: the reply carries the text back out through the transport, whatever its alphabet."""
+    if rng.random() < 0.5:
+        return hist
+    node = rng.choice([1, 3, 9])
+    child = rng.choice([0, 2, 7])
+    texts = ["21.5 °C", "grüß dich", "漢字", "\U0001F600", "naïve café", "Ωμέγα", "tab\tsep", "a\u00a0b", "é" * 40]
+    script = [("L", f"{node};255;0;0;17;{version}\n"), ("L", f"{node};{child};0;0;23;custom\n")]
+    for vt in rng.sample([24, 25, 26, 27, 28], 2):
+        t = rng.choice(texts)
+        script += [("L", f"{node};{child};1;0;{vt};{t}\n"), ("L", f"{node};{child};2;0;{vt};\n")]
+    if rng.random() < 0.5:
+        script.append(("S", node, child, 24, rng.choice(texts), None))
+    out = list(hist)
+    pos = rng.randrange(len(out) + 1)
+    while pos < len(out) and out[pos][0] == "R":
+        pos += 1
+    return out[:pos] + script + out[pos:]
+
+
 def pending_pair_burst(rng, version, hist):
     """Weave one scripted smart-sleep episode into a history (protocol >= 2.0): a dimmer child reports two
     value types, the node announces sleep, the controller sets BOTH types, the node then reports only one of
@@ -720,6 +762,10 @@ def gen_stream(rng, const, node):
                 payload = (good + "".join(rng.choice("0123456789abcdef") for _ in range(8)))[:n]
                 if n == len(good):
                     payload = good[:-4]          # keep this branch malformed: exactly one word short
+            elif rng.random() < 0.35:
+                # all the right digits with white space among them (between words, between bytes, leading)
+                k = rng.choice([0, 2, 4, 8, rng.randrange(1, len(good))])
+                payload = good[:k] + rng.choice([" ", "  ", "\t", "\x0b", "\u00a0"]) + good[k:]
             else:
                 k = rng.randrange(len(good))
                 payload = good[:k] + rng.choice(["g", "é", " ", "-", "x", "٠"]) + good[k + 1:]
